@@ -33,7 +33,10 @@ type Handler struct {
 	Code uint8
 	// Delay before answering; Started is signalled (non-blocking) when a handler call starts
 	Delay   time.Duration
-	Started chan struct{}
+	// ErrorFromUnit > 0: requests whose unit id is >= ErrorFromUnit are answered with a typed handler error
+	// packet.NewErrorParseTCP(ErrorCodeFor(unit), msg) instead of the device's reply
+	ErrorFromUnit uint8
+	Started       chan struct{}
 	Calls   int
 	Seen    [][]byte
 }
@@ -55,6 +58,9 @@ func (h *Handler) Handle(ctx context.Context, req packet.Request) (packet.Respon
 	if delay > 0 {
 		time.Sleep(delay)
 	}
+	if h.ErrorFromUnit > 0 && len(raw) > 6 && raw[6] >= h.ErrorFromUnit {
+		return nil, packet.NewErrorParseTCP(ErrorCodeFor(raw[6]), "handler refuses this unit")
+	}
 	switch mode {
 	case "typed-error":
 		return nil, packet.NewErrorParseTCP(code, "handler says no")
@@ -68,6 +74,9 @@ func (h *Handler) Handle(ctx context.Context, req packet.Request) (packet.Respon
 	h.mu.Unlock()
 	return RawResponse{B: reply, FC: req.FunctionCode()}, nil
 }
+
+// ErrorCodeFor is the exception code the handler uses for an error unit.
+func ErrorCodeFor(unit uint8) uint8 { return 1 + unit%11 }
 
 // Collector reads everything arriving on a connection.
 type Collector struct {
